@@ -284,7 +284,18 @@ class Prop(common.PropertyCheck):
                 with warnings.catch_warnings(record=True) as w:
                     warnings.simplefilter('always')
                     try:
-                        f = FlowCal.io.FCSFile(path)
+                        if (case['spec'].get('analysis') and case['spec'].get('raw_analysis') is None) and len(data) % 2:
+                            # loaded from an open file object that is closed right afterwards; then the file at the path is replaced by another
+                            # acquisition of the same layout (other ANALYSIS values) before the keyword dictionaries are looked at
+                            with open(path, 'rb') as fh:
+                                f = FlowCal.io.FCSFile(fh)
+                            other = dict(case['spec'], analysis=[[k, ('~' + v)[:len(v)] if v else v] for k, v in case['spec']['analysis']])
+                            odata, _ = fcswriter.build(other)
+                            if len(odata) == len(data):
+                                with open(path, 'wb') as fh:
+                                    fh.write(odata)
+                        else:
+                            f = FlowCal.io.FCSFile(path)
                         return {'text': sorted([k, v] for k, v in f.text.items()),
                                 'analysis': sorted([k, v] for k, v in f.analysis.items()),
                                 'awarn': any('ANALYSIS segment could not be parsed' in str(x.message) for x in w),
